@@ -44,7 +44,7 @@ func main() {
 	vlib.ExecConformance(c, "C13", bins, vs, rand.New(rand.NewSource(vlib.Seed()+1300)), n,
 		vlib.ExecMode{Faults: true, Sentinel: true, Defer: true, Scheds: true, PlansPer: 3,
 			Module: "GqlDeferTrace", Config: "GqlDeferTrace.cfg", Lines: vlib.DeferTraceLines,
-			Corpus: corpus, Classify: vlib.DeferRejectKey, DevConfig: "GqlDeferTraceDev.cfg",
+			Corpus: corpus, Classify: vlib.DeferRejectKey, Devs: []vlib.DevStep{{Config: "GqlDeferTraceLeaf.cfg", Key: vlib.LeafElemKey}, {Config: "GqlDeferTraceDev.cfg"}},
 			// the same payload sequences as delivered on the wire by the streaming transports
 			// (multipart/mixed batches the payloads of one flush interval into one part)
 			Transports: []string{"tp:mixed", "tp:sse"}, TransportEvery: 3})
